@@ -26,7 +26,7 @@ package coresim
 //   c18_ungate_keep {point}                    a gated hook point lets later arrivals pass, who is parked there stays
 //   c18_delfid                                 delete the stored framework id (fresh installation)
 //
-// Points: "RECONCILE", "ACCEPT" (an ACCEPT call launching at least one task), "MESSAGE:CONFIGURE",
+// Points: "RECONCILE", "REVIVE", "ACCEPT" (an ACCEPT call launching at least one task), "MESSAGE:CONFIGURE",
 // "MESSAGE:START", ..., "KILL", "LAUNCH" (per task, before TASK_RUNNING is reported; a task that was
 // killed while held is never reported running).
 
@@ -86,6 +86,8 @@ func c18Point(call *scheduler.Call) string {
 				}
 			}
 		}
+	case scheduler.Call_REVIVE:
+		return "REVIVE" // held: no offers, a deployment waits for them inside acquireTasks (deployMu taken)
 	case scheduler.Call_KILL:
 		return "KILL"
 	case scheduler.Call_MESSAGE:
